@@ -19,6 +19,7 @@ const (
 // Pre-configured modes for CBOR encoding and decoding.
 var (
 	encMode                  cbor.EncMode
+	encModeProtected         cbor.EncMode
 	decMode                  cbor.DecMode
 	decModeWithTagsForbidden cbor.DecMode
 )
@@ -28,11 +29,19 @@ func init() {
 
 	// init encode mode
 	encOpts := cbor.EncOptions{
-		Sort:          cbor.SortCoreDeterministic, // sort map keys
-		IndefLength:   cbor.IndefLengthForbidden,  // no streaming
-		BigIntConvert: cbor.BigIntConvertNone,     // keep bignums as bignums: integers above MaxInt64 are not decodable
+		Sort:        cbor.SortCoreDeterministic, // sort map keys
+		IndefLength: cbor.IndefLengthForbidden,  // no streaming
 	}
 	encMode, err = encOpts.EncMode()
+	if err != nil {
+		panic(err)
+	}
+	// The content of the protected header may carry tags, and a positive
+	// integer above MaxInt64 is only decodable as a bignum: keep big integers
+	// as bignums there. Everywhere else tags are forbidden on decoding, and
+	// big integers are written as plain integers where they fit.
+	encOpts.BigIntConvert = cbor.BigIntConvertNone
+	encModeProtected, err = encOpts.EncMode()
 	if err != nil {
 		panic(err)
 	}
